@@ -118,6 +118,26 @@ def gen(tier, rng):
             cases.append(Case(sess.session(run_calls(pz, [])), sig="\n".join(pb) + "\n#renumbered from %d step %d" % (start, step), tag="renumber",
                               meta=("same", pi, {mz[l]: mb[l] for l in labels})))
             cases.append(Case(sess.compile_case(pz), sig="compile\n" + "\n".join(pz), tag="compile"))
+    # (c'') a remark, an empty statement or nothing at all behind the last line: the program falls off its end the same way
+    LAST = ["ON X GOTO 10", "ON 5 GOTO 10,10", "N=N+1:ON 2-N GOTO 10", "IF 0 THEN 10", "ON X GOSUB 10", "FOR I=1 TO 1:NEXT", "WHILE 0:WEND",
+            "IF 0 THEN END", "N=N+1:IF N<3 THEN 10", "N=N+1:IF N<2 THEN GOSUB 10", "DEF FNA(X)=X", "DATA 1", "PRINT 2:END", "STOP", "RESTORE 10",
+            "IF 0 THEN PRINT 1 ELSE IF 0 THEN 10", "ON X GOTO 10:REM"]
+    pi = nprog + len(FIRST)
+    for last in LAST:
+        base = ['10 PRINT "A";:N=N+1:IF N>4 THEN END', "20 " + last]
+        cases.append(Case(sess.session(run_calls(base, [])), sig="\n".join(base), tag="base", meta=("base", pi, None)))
+        for tail in ("30 REM tail", "30 :", "30 ' x", "25 REM between", "15 :"):
+            pv = sorted(base + [tail], key=lambda l: int(l.split(" ")[0]))
+            cases.append(Case(sess.session(run_calls(pv, [])), sig="\n".join(base) + "\n#inserted: " + tail, tag="insert",
+                              meta=("same", pi, {10: 10, 20: 20})))
+        # ... and the same when a direct statement enters it instead of RUN
+        for entry in ("GOTO 10", 'PRINT "D";:IF K=0 THEN K=1:GOTO 10'):
+            calls = ["R5000"] + [sess.E(l) for l in base] + [sess.E(entry), "R5000"]
+            cases.append(Case(sess.session(calls), sig="\n".join(base) + "\n#entered by: " + entry, tag="direct-entry", meta=("dbase", 100000 + pi * 10 + len(entry), None)))
+            calls = ["R5000"] + [sess.E(l) for l in base + ["30 REM tail"]] + [sess.E(entry), "R5000"]
+            cases.append(Case(sess.session(calls), sig="\n".join(base) + "\n30 REM tail\n#entered by: " + entry, tag="direct-entry",
+                              meta=("dsame", 100000 + pi * 10 + len(entry), None)))
+        pi += 1
     # (d)/(e) direct statement lists
     for di in range(150 if tier == "quick" else 5000):
         P = gen_prog.Prog(rng, {"tron": False, "input": False})
